@@ -156,6 +156,18 @@ let parse_cell (s : str) : cell =
       if t = "nan" then CReal (z_of_hex "7ff8000000000000") else CReal (z_of_hex t)
     | 'S' -> CStr (coq_of_string (string_of_hexbytes (take_while is_tok)))
     | 'B' -> let t = take_while is_tok in of_bools (bools_of_string t) |> fun b -> CBits b
+    | 'W' ->
+      (* W<pre>.<post>.<bits>: the same view as the harness builds (junk bits 1010.. before and after) *)
+      let t = take_while is_tok in
+      (match Stdlib.String.split_on_char '.' t with
+       | [a; b; bits] ->
+         let pre = int_of_string a and post = int_of_string b in
+         let bits = if bits = "-" then "" else bits in
+         let junk n = Stdlib.String.init n (fun i -> if i mod 2 = 0 then '1' else '0') in
+         let full = junk pre ^ bits ^ junk post in
+         let w = of_bools (bools_of_string full) in
+         CBits { cstart = nat_of_int pre; cend = nat_of_int (pre + Stdlib.String.length bits); cdata = w.cdata }
+       | _ -> failwith ("parse_cell W " ^ t))
     | 'A' -> CAny
     | 'V' -> incr pos; (* ( *)
       let l = ref [] in
